@@ -1,12 +1,14 @@
-import InTotoModel.Spec.Rules
+import InTotoModel.Lemmas.RulesRefine
 /-
   C03 — Artifact rules are enforced as the in-toto specification prescribes.
 
   Model: `InToto.Rules.applyRulesOnLink` (src/rulelib.rs).  Specification: `InToto.RulesSpec.verdict`
-  (Spec/Rules.lean).  Proved here: the two safety clauses of the statement, for all inputs.
-  The equality "model verdict = specification verdict" on normalized inputs is checked by the
-  correspondence run over a systematic scope and random cases (oracle), and is the next theorem to be
-  added (`c03_refines_spec`); until then the property is claimed as partial.
+  (Spec/Rules.lean).  Proved here, for all inputs: the code-shaped engine (canonicalised path sets,
+  `created`/`deleted`/`modified`, text-level prefix handling, `PathBuf::push` joins, last-wins map
+  lookups) returns `Ok` exactly when the specification's algorithm accepts, on normalized relative
+  paths and portable rules (`c03_refines_spec`); plus the two safety clauses of the statement without
+  any hypothesis.  `glob` and `path_clean` enter as the library models `Glob.globMatch` /
+  `PathClean.clean` (validated differentially).
 -/
 namespace InToto.Rules
 
@@ -110,6 +112,28 @@ theorem c03_disallow_iff (p : Str) (hp : (Glob.parse p).isSome) (arts : Artifact
       apply List.filter_eq_nil_iff.mpr
       intro a ha
       simpa using h a ha
+
+open InToto.RulesSpec in
+/-- Refinement: for every item, every ordered rule list (any mix of the seven kinds, with and
+    without IN prefixes) and every link table, the accept/reject decision of the code equals the
+    outcome of the specification's rule-processing algorithm — provided the recorded paths are
+    normalized relative paths without duplicates (`NormTableP`) and MATCH prefixes are non-empty
+    relative directory names (`PortableRuleP`). -/
+theorem c03_refines_spec (item : Item) (reduced : List (Str × LinkArts))
+    (ht : NormTableP reduced)
+    (hrm : ∀ r ∈ item.expMaterials, PortableRuleP r) (hrp : ∀ r ∈ item.expProducts, PortableRuleP r) :
+    (applyRulesOnLink item reduced).isOk = verdict item reduced :=
+  applyRulesOnLink_refines item reduced ht hrm hrp
+
+/- Non-vacuity: the hypotheses are met by a concrete table (paths `foo`, `sub/foo`). -/
+example : RulesSpec.NormTableP [(['s'], LinkArts.mk [(['f', 'o', 'o'], [])]
+    [(['s', 'u', 'b', '/', 'f', 'o', 'o'], [])])] := by
+  intro e he
+  simp at he
+  subst he
+  refine ⟨⟨?_, by decide⟩, ⟨?_, by decide⟩⟩
+  · intro e he; simp at he; subst he; exact ⟨by decide, by decide, by decide⟩
+  · intro e he; simp at he; subst he; exact ⟨by decide, by decide, by decide⟩
 
 /- Non-vacuity: the witnesses of the repaired defects now behave as the statement requires. -/
 example : Glob.parse ['a', '*', '*', 'b'] = none := by decide
